@@ -3,7 +3,8 @@
 (* maximum and an average over both (nested once more), three fans of which two share a curve. *)
 EXTENDS System
 
-Readings == {20000, 47500, 80000}
+CONSTANTS MaxSteps, Tier
+Readings == IF Tier = "quick" THEN {20000, 47500, 80000} ELSE {20000, 40000, 47500, 61000, 80000}
 
 CurveCfgMC ==
   [lin   |-> [t |-> "lin", sensor |-> "s1", mn |-> 40, mx |-> 80, steps |-> <<>>, fn |-> "", members |-> <<>>],
@@ -15,12 +16,12 @@ FanCfgMC ==
    f2 |-> [curve |-> "avg", gmin |-> 30, mx |-> 200],
    f3 |-> [curve |-> "avg", gmin |-> 30, mx |-> 200]]
 SensorIdsMC == {"s1", "s2"}
+CfgMC == [win |-> 3, sensors |-> SensorIdsMC, curves |-> CurveCfgMC, fans |-> FanCfgMC]
 
 VARIABLE steps
 mcvars == <<sysvars, steps>>
-MaxSteps == 5
 
-Init == SysInit([s \in SensorIds |-> 40000]) /\ steps = 0
+Init == SysInit(CfgMC, [s \in SensorIdsMC |-> 40000]) /\ steps = 0
 Next == /\ steps < MaxSteps /\ steps' = steps + 1
         /\ \/ \E s \in SensorIds, x \in Readings : Poll(s, x)
            \/ \E s \in SensorIds : PollFail(s)
